@@ -220,23 +220,40 @@ pub fn run<M: Model + Clone>(spec: Spec<M>, out: &mut Outcome) {
         }
     }
 
-    // group violations by signature, keep shortest
-    let mut groups: Vec<(usize, Violation, usize)> = Vec::new();
+    // group violations by (signature, known-finding match), keep shortest.
+    // The known-finding match is evaluated per violation on
+    // "kind|detail @ history", so that an unknown history with the same
+    // symptom is never hidden behind a known one.
+    let known = crate::report::load_known();
+    let full_sig = |v: &Violation| {
+        format!("{} @ {}", v.signature(), crate::ops::compact_path(&v.ops))
+    };
+    let known_idx = |v: &Violation| -> Option<usize> {
+        let fs = full_sig(v);
+        known
+            .iter()
+            .position(|k| k.property == spec.property && k.sig.is_match(&fs))
+    };
+    let mut groups: Vec<(usize, Violation, usize, Option<usize>)> = Vec::new();
     for (ci, v) in all_viol {
         let sig = v.signature();
-        if let Some(g) = groups.iter_mut().find(|g| g.1.signature() == sig) {
+        let ki = known_idx(&v);
+        if let Some(g) = groups
+            .iter_mut()
+            .find(|g| g.1.signature() == sig && g.3 == ki)
+        {
             g.2 += 1;
             if v.ops.len() < g.1.ops.len() {
                 g.0 = ci;
                 g.1 = v;
             }
         } else {
-            groups.push((ci, v, 1));
+            groups.push((ci, v, 1, ki));
         }
     }
     // confirm each by replay in a fresh process
     let mut validated = 0u64;
-    for (ci, v, count) in &groups {
+    for (ci, v, count, _ki) in &groups {
         let cfg = &spec.configs[*ci];
         let sig = v.signature();
         let dir = root.join("replay");
@@ -253,7 +270,7 @@ pub fn run<M: Model + Clone>(spec: Spec<M>, out: &mut Outcome) {
         if reproduced {
             validated += 1;
             out.findings.push(Finding {
-                signature: sig.clone(),
+                signature: full_sig(v),
                 text: format!(
                     "[{}] {}: {} (after {} ops, {} occurrences) ops={}",
                     v.config,
